@@ -447,6 +447,9 @@ pub fn run(run: &Run, replay: Option<&Value>) {
 
     // ---- space 3: the real Context::resolver() stack over loopback ports nobody listens on -----
     context_stack_space(run);
+
+    // ---- space 4: the real Context::resolver()/resolver_async() stacks through redirect chains -----
+    context_redirect_space(run);
     CAP.report(run);
 }
 
@@ -517,6 +520,266 @@ fn context_stack_space(run: &Run) {
     run.outcome_n("context:refused-UriDisallowed", refused.load(std::sync::atomic::Ordering::Relaxed));
 }
 
+// ---------------------------------------------------------------------------------------------
+// space 4: SDK-built resolver stacks (real ureq / reqwest clients) through redirect chains served by
+// harness-owned loopback responders
+// ---------------------------------------------------------------------------------------------
+
+struct RealWorld {
+    lb: net::Loopback,
+    /// /etc/hosts names for 127.0.0.1 that are not spelled like localhost (pass the SDK's name-based SSRF filter)
+    aliases: Vec<String>,
+}
+
+fn real_world() -> Result<RealWorld, String> {
+    let lb = net::Loopback::start(2).ok_or("cannot bind loopback listeners")?;
+    let aliases = net::loopback_aliases();
+    Ok(RealWorld { lb, aliases })
+}
+
+/// `$A` / `$B` = ports of responder 0 / 1, `$N` / `$M` = first / second loopback alias name.
+fn subst(w: &RealWorld, t: &str) -> String {
+    t.replace("$A", &w.lb.ports[0].to_string())
+        .replace("$B", &w.lb.ports[1].to_string())
+        .replace("$N", w.aliases.first().map(|s| s.as_str()).unwrap_or("alias-missing.invalid"))
+        .replace("$M", w.aliases.get(1).map(|s| s.as_str()).unwrap_or("alias2-missing.invalid"))
+}
+
+#[derive(Debug)]
+struct RealObs {
+    wire: Vec<net::WireSeen>,
+    /// Ok(status) | Err(error class); "NoAnswerWithinDeadline" when the call was still running after the deadline
+    result: Result<u16, String>,
+}
+
+/// One call through the SDK-built stack. Runs in its own thread so that a request that wrongly leaves for the
+/// network cannot stall the check (the allow-list refuses in microseconds).
+fn run_real(w: &RealWorld, list: &Option<Vec<String>>, start: &str, locs: &[String], is_async: bool) -> RealObs {
+    w.lb.arm(locs.iter().map(|l| Some(l.clone())).collect());
+    let settings = match list {
+        None => json!({"core": {}}),
+        Some(t) => json!({"core": {"allowed_network_hosts": t}}),
+    };
+    let ctx = kit::sdk::ctx_with(&[&settings.to_string()]);
+    let req = net::request("GET", start, &[], vec![]).unwrap_or_else(|| kit::ev::machinery(format!("C26: start URI {start} not constructible")));
+    let (tx, rx) = std::sync::mpsc::channel();
+    std::thread::spawn(move || {
+        let r = par::guard(|| {
+            if is_async {
+                let res = ctx.resolver_async();
+                net::block_on_tokio(res.http_resolve_async(req)).map(|r| r.status().as_u16()).map_err(|e| net::err_class(&e).to_string() + &detail(&e))
+            } else {
+                ctx.resolver().http_resolve(req).map(|r| r.status().as_u16()).map_err(|e| net::err_class(&e).to_string() + &detail(&e))
+            }
+        });
+        let _ = tx.send(r);
+    });
+    let result = match rx.recv_timeout(std::time::Duration::from_secs(2)) {
+        Ok(Ok(r)) => r,
+        Ok(Err(p)) => Err(format!("panic: {p}")),
+        Err(_) => Err("NoAnswerWithinDeadline".to_string()),
+    };
+    RealObs { wire: w.lb.log(), result }
+}
+
+fn detail(e: &HttpResolverError) -> String {
+    match e {
+        HttpResolverError::Other(inner) => format!(": {}", inner.to_string().chars().take(120).collect::<String>()),
+        _ => String::new(),
+    }
+}
+
+/// The URI the stack must have been working on when the call ended after `k` observed requests.
+fn pending_target(start: &str, locs: &[String], wire: &[net::WireSeen]) -> Option<String> {
+    if wire.is_empty() {
+        return Some(start.to_string());
+    }
+    let loc = locs.get(wire.len() - 1)?;
+    if loc.starts_with('/') {
+        Some(format!("http://{}{}", wire[wire.len() - 1].host, loc))
+    } else {
+        Some(loc.clone())
+    }
+}
+
+fn judge_real(run: &Run, w: &RealWorld, list: &Option<Vec<String>>, start: &str, locs: &[String], is_async: bool, obs: &RealObs) {
+    let stack = if is_async { "context-default-async" } else { "context-default-sync" };
+    let case = || json!({"kind":"real","allowed_network_hosts": list, "start": start, "locations": locs, "async": is_async,
+                         "note": "ports and alias names are those of the recorded run; replay re-binds its own listeners and substitutes them"});
+    let model: Option<Vec<Pat>> = list.as_ref().map(|t| t.iter().map(|x| Pat::parse(x)).collect());
+    let accepts = |uri: &str| match &model {
+        None => true,
+        Some(m) => net::split_uri(uri).map(|p| net::list_accepts(m, &p).is_ok()).unwrap_or(false),
+    };
+    // 1. nothing may be OBSERVED at a harness responder for a URI the matcher rejects
+    for (k, s) in obs.wire.iter().enumerate() {
+        let u = s.uri();
+        if !accepts(&u) {
+            CAP.violation(
+                run,
+                format!("passed-unmatched stack={stack} hop={} observed-at=loopback-responder", if k == 0 { "initial" } else { "redirect" }),
+                || format!("request #{k} for {u} arrived at harness responder {} although allowed_network_hosts={list:?} does not admit it; chain {:?}", s.listener, obs.wire.iter().map(|x| x.uri()).collect::<Vec<_>>()),
+                case,
+            );
+        }
+    }
+    // 2. a call that stops at a URI the matcher rejects must stop with UriDisallowed (an internal-address literal may
+    //    be refused by the redirect SSRF rule first); anything else means the request went past the allow-list
+    if let Err(e) = &obs.result {
+        let class = e.split(':').next().unwrap_or("").to_string();
+        if let Some(target) = pending_target(start, locs, &obs.wire) {
+            if !accepts(&target) {
+                let internal = net::uri_host_class(&target).is_some();
+                let ok = class == "UriDisallowed" || (class == "RedirectTargetDisallowed" && internal && !obs.wire.is_empty());
+                if !ok {
+                    let _ = w;
+                    CAP.violation(
+                        run,
+                        format!("refused-with-wrong-error err={class} stack={stack} hop={}", if obs.wire.is_empty() { "initial" } else { "redirect" }),
+                        || format!("the call stopped at {target}, which allowed_network_hosts={list:?} does not admit, with `{e}` instead of UriDisallowed: the request was handed to the HTTP client; requests seen by the responders: {:?}", obs.wire.iter().map(|x| x.uri()).collect::<Vec<_>>()),
+                        case,
+                    );
+                }
+            }
+        }
+    }
+}
+
+fn real_lists() -> Vec<Option<Vec<&'static str>>> {
+    vec![
+        None,
+        Some(vec![]),
+        Some(vec!["127.0.0.1:$A"]),
+        Some(vec!["$N:$A"]),
+        Some(vec!["http://$N:$A"]),
+        Some(vec!["https://$N:$A"]),
+        Some(vec!["*.0.0.1:$A"]),
+        Some(vec!["127.0.0.1:$A", "$N:$A"]),
+        Some(vec!["$N:$A", "$N:$B"]),
+        Some(vec!["$N"]),
+    ]
+}
+
+fn real_locations() -> Vec<&'static str> {
+    vec![
+        "http://$N:$B/h",            // reachable responder, other port
+        "http://$N:$A/h",            // reachable responder, same port, by alias name
+        "http://$M:$A/h",            // second alias name
+        "/rel",                      // same authority
+        "http://127.0.0.1:$B/h",     // internal literal (redirect SSRF rule applies first)
+        "http://not-listed.invalid/h", // public-looking name that cannot resolve
+        "http://93.184.216.34:9/h",  // public address that cannot be reached from here
+    ]
+}
+
+fn context_redirect_space(run: &Run) {
+    let w = match real_world() {
+        Ok(w) => w,
+        Err(e) => {
+            run.assume(&format!("real-stack redirect sub-space skipped: {e}"));
+            run.space("SDK-built resolver stacks through redirect chains served by loopback responders", 0, true);
+            return;
+        }
+    };
+    if w.aliases.is_empty() {
+        run.assume("no /etc/hosts alias for 127.0.0.1 besides localhost: redirect hops of the real stack can only target unreachable public-looking hosts (judged by the error class), none can be observed at a responder");
+    }
+    run.extra("real_stack_loopback_aliases", json!(w.aliases));
+    // liveness of the seam: without an allow-list a redirect by alias name is followed to the second responder
+    if !w.aliases.is_empty() {
+        let o = run_real(&w, &None, &subst(&w, "http://127.0.0.1:$A/i"), &[subst(&w, "http://$N:$B/h")], false);
+        if o.wire.len() != 2 || o.result != Ok(200) {
+            kit::ev::machinery(format!("C26: loopback seam check failed (expected 2 requests and 200): {o:?}"));
+        }
+        let o2 = run_real(&w, &None, &subst(&w, "http://127.0.0.1:$A/i"), &[subst(&w, "http://$N:$B/h")], true);
+        if o2.wire.len() != 2 || o2.result != Ok(200) {
+            kit::ev::machinery(format!("C26: loopback seam check (async) failed: {o2:?}"));
+        }
+    }
+    let lists = real_lists();
+    let locs = real_locations();
+    let starts = ["http://127.0.0.1:$A/i", "http://$N:$A/i"];
+    // chains: length 0, every single Location, and every pair whose first hop can be served by a responder
+    let mut chains: Vec<Vec<usize>> = vec![vec![]];
+    for a in 0..locs.len() {
+        chains.push(vec![a]);
+    }
+    for a in 0..4 {
+        for b in 0..locs.len() {
+            chains.push(vec![a, b]);
+        }
+    }
+    let mut cases: Vec<(usize, usize, usize, bool)> = vec![];
+    for l in 0..lists.len() {
+        for s in 0..starts.len() {
+            for (c, ch) in chains.iter().enumerate() {
+                // without an allow-list (control) hops to the two unreachable public-looking targets legitimately leave for the
+                // network; they say nothing about the allow-list and only cost connect time
+                if lists[l].is_none() && ch.iter().any(|i| *i >= 5) {
+                    continue;
+                }
+                cases.push((l, s, c, false));
+                if ch.len() <= 1 {
+                    cases.push((l, s, c, true));
+                }
+            }
+        }
+    }
+    run.space(
+        "SDK-built stacks Context::resolver() [ureq] and resolver_async() [reqwest] x 9 allowed_network_hosts shapes + no list (control, reachable Locations only) x 2 start URIs x redirect chains of length<=2 over 7 Locations (async: length<=1), served by two loopback responders",
+        cases.len() as u64,
+        true,
+    );
+    let (mut served, mut refused, mut hops_observed, mut off_list_stops) = (0u64, 0u64, 0u64, 0u64);
+    // sequential: the responders share one script
+    let mut stalled = 0u32;
+    for (l, s, c, is_async) in cases {
+        if stalled >= 3 && chains[c].contains(&6) {
+            // only reachable on a violating tree: every further call towards the unreachable public address would stall too
+            run.cap_hit("real-stack space: calls towards the unreachable public address skipped after 3 of them left for the network and stalled");
+            continue;
+        }
+        let list: Option<Vec<String>> = lists[l].as_ref().map(|v| v.iter().map(|t| subst(&w, t)).collect());
+        let start = subst(&w, starts[s]);
+        let chain: Vec<String> = chains[c].iter().map(|i| subst(&w, locs[*i])).collect();
+        let obs = run_real(&w, &list, &start, &chain, is_async);
+        run.eval();
+        run.states(1);
+        run.transitions(obs.wire.len() as u64 + if obs.result.is_err() { 1 } else { 0 });
+        run.traces(1);
+        judge_real(run, &w, &list, &start, &chain, is_async, &obs);
+        if matches!(&obs.result, Err(e) if e.starts_with("NoAnswerWithinDeadline")) {
+            stalled += 1;
+        }
+        match &obs.result {
+            Ok(_) => served += 1,
+            Err(_) => refused += 1,
+        }
+        if obs.wire.len() > 1 {
+            hops_observed += 1;
+            run.nontrivial(format!("real/{l}/{s}/{c}/{is_async}"));
+        } else if obs.result.is_err() && !obs.wire.is_empty() {
+            off_list_stops += 1;
+            run.nontrivial(format!("real/{l}/{s}/{c}/{is_async}"));
+        }
+        let cls = match &obs.result {
+            Ok(st) => format!("Ok({st})"),
+            Err(e) => format!("Err({})", e.split(':').next().unwrap_or("")),
+        };
+        run.outcome(format!("real:{}:{cls}:requests-observed={}", if is_async { "async" } else { "sync" }, obs.wire.len()));
+    }
+    run.extra("real_stack", json!({"calls_served": served, "calls_ended_in_error": refused, "calls_with_a_redirect_hop_observed_at_a_responder": hops_observed, "calls_stopped_at_a_redirect_hop": off_list_stops}));
+    if run.violation_count() == 0 && (off_list_stops == 0 || (!w.aliases.is_empty() && hops_observed == 0)) {
+        kit::ev::machinery("C26: real-stack redirect space is vacuous (no hop observed or none stopped)");
+    }
+    {
+        let list = Some(vec![subst(&w, "127.0.0.1:$A")]);
+        let (st, ch) = (subst(&w, "http://127.0.0.1:$A/i"), vec![subst(&w, "http://not-listed.invalid/h")]);
+        let o = run_real(&w, &list, &st, &ch, false);
+        run.sample(json!({"kind":"real","allowed_network_hosts": list, "start": st, "locations": ch, "observed": format!("{o:?}")}));
+    }
+}
+
 fn replay_case(run: &Run, c: &Value) {
     run.eval();
     run.states(1);
@@ -540,6 +803,32 @@ fn replay_case(run: &Run, c: &Value) {
             let obs = run_chain(&list, start, &locs, c["async"].as_bool().unwrap_or(false)).unwrap_or_else(|| kit::ev::machinery("replay: URI not constructible"));
             println!("replay chain patterns={:?} start={start} locations={locs:?}: {obs:?}", strs(&c["patterns"]));
             judge(run, "redirect+restricted", &list, &obs, c);
+        }
+        Some("real") => {
+            // listeners are re-bound: map the recorded ports / alias names onto the fresh ones by position
+            let w = real_world().unwrap_or_else(|e| kit::ev::machinery(format!("replay: {e}")));
+            let list: Option<Vec<String>> = if c["allowed_network_hosts"].is_null() { None } else { Some(strs(&c["allowed_network_hosts"])) };
+            let start = c["start"].as_str().unwrap_or("").to_string();
+            let locs = strs(&c["locations"]);
+            // recorded port of responder 0 is the start URI's port; any other loopback port in the case is responder 1
+            let port_of = |u: &str| net::split_uri(u).and_then(|p| p.port);
+            let old_a = port_of(&start).unwrap_or_default();
+            let mut all: Vec<String> = locs.clone();
+            all.extend(list.clone().unwrap_or_default());
+            let old_b = all.iter().filter_map(|u| net::split_uri(u).and_then(|p| p.port).or_else(|| Pat::parse(u).port)).find(|p| *p != old_a && p.len() >= 4 && p != "8080").unwrap_or_default();
+            let remap = |t: &str| {
+                let mut t = t.replace(&format!(":{old_a}"), ":$A");
+                if !old_b.is_empty() {
+                    t = t.replace(&format!(":{old_b}"), ":$B");
+                }
+                subst(&w, &t)
+            };
+            let list = list.map(|v| v.iter().map(|t| remap(t)).collect::<Vec<_>>());
+            let (start, locs) = (remap(&start), locs.iter().map(|t| remap(t)).collect::<Vec<_>>());
+            let is_async = c["async"].as_bool().unwrap_or(false);
+            let obs = run_real(&w, &list, &start, &locs, is_async);
+            println!("replay real allowed_network_hosts={list:?} start={start} locations={locs:?} async={is_async}: {obs:?}");
+            judge_real(run, &w, &list, &start, &locs, is_async, &obs);
         }
         _ => kit::ev::machinery("replay kind not supported; rerun the tier"),
     }
